@@ -196,6 +196,13 @@ const char* ws_choice(const char* site) {
   return WS[choose(3, site)];
 }
 
+// A decimal number as some writer might print it: one time in four with leading zeros (still decimal)
+string dec_field(uint64_t v, const char* site) {
+  string z;
+  if (choose(4, site) == 3) z.assign(1 + choose(3, "num.zeros"), '0');
+  return z + std::to_string(v);
+}
+
 // P5 / P6 (plain header)  — gray: uses q.r as the gray sample
 Encoded enc_pnm(const Pic& src, bool gray, uint64_t maxval) {
   Encoded e;
@@ -205,13 +212,13 @@ Encoded enc_pnm(const Pic& src, bool gray, uint64_t maxval) {
   e.marks.push_back(1);
   e.marks.push_back(2);
   s += ws_choice("pnm.ws1");
-  s += std::to_string(src.w);
+  s += dec_field(src.w, "pnm.w.zeros");
   e.marks.push_back(s.size());
   s += ws_choice("pnm.ws2");
-  s += std::to_string(src.h);
+  s += dec_field(src.h, "pnm.h.zeros");
   e.marks.push_back(s.size());
   s += ws_choice("pnm.ws3");
-  s += std::to_string(maxval);
+  s += dec_field(maxval, "pnm.maxval.zeros");
   e.marks.push_back(s.size());
   s += ws_choice("pnm.ws4");
   e.marks.push_back(s.size());
@@ -244,8 +251,8 @@ Encoded enc_pam(const Pic& src, bool gray, bool alpha, uint64_t maxval) {
   s = "P7\n";
   e.marks.push_back(2);
   e.marks.push_back(3);
-  std::vector<string> lines = {"WIDTH " + std::to_string(src.w), "HEIGHT " + std::to_string(src.h),
-      "DEPTH " + std::to_string((gray ? 1 : 3) + (alpha ? 1 : 0)), "MAXVAL " + std::to_string(maxval), string("TUPLTYPE ") + tt};
+  std::vector<string> lines = {"WIDTH " + dec_field(src.w, "pam.w.zeros"), "HEIGHT " + dec_field(src.h, "pam.h.zeros"),
+      "DEPTH " + dec_field((gray ? 1 : 3) + (alpha ? 1 : 0), "pam.depth.zeros"), "MAXVAL " + dec_field(maxval, "pam.maxval.zeros"), string("TUPLTYPE ") + tt};
   // drawn permutation of the header lines
   for (size_t i = lines.size(); i > 1; i--) {
     size_t j = choose(i, "pam.order");
@@ -279,13 +286,15 @@ Encoded enc_pam(const Pic& src, bool gray, bool alpha, uint64_t maxval) {
   return e;
 }
 
-// BMP: 24/32-bit BI_RGB with 40/108/124-byte headers, 32-bit BI_BITFIELDS (108/124) with any byte-mask
+// BMP: 24/32-bit BI_RGB with 40/52/56/108/124-byte headers, 32-bit BI_BITFIELDS (56/108/124) with any byte-mask
 // permutation; bottom-up or top-down; optional gap before the pixel array.
 Encoded enc_bmp(const Pic& src8) {
   Encoded e;
   bool bitfields = choose(2, "bmp.bitfields");
   int bpp = bitfields ? 32 : (choose(2, "bmp.bpp") ? 32 : 24);
-  uint32_t hdr = bitfields ? (choose(2, "bmp.hdr.v") ? 124 : 108) : (uint32_t)pick({40, 108, 124}, "bmp.hdr");
+  // info header sizes: 40 (BITMAPINFOHEADER), 52 (V2: + RGB masks), 56 (V3: + alpha mask, what Photoshop writes),
+  // 108 (V4), 124 (V5). BI_BITFIELDS with four masks needs at least 56.
+  uint32_t hdr = bitfields ? (uint32_t)pick({124, 108, 56}, "bmp.hdr.v") : (uint32_t)pick({40, 108, 124, 52, 56}, "bmp.hdr");
   bool top_down = choose(2, "bmp.topdown");
   uint32_t gap = choose(3, "bmp.gap") == 2 ? 1 + choose(9, "bmp.gap.len") : 0;
   int perm[4] = {0, 1, 2, 3}; // byte offset within the little-endian dword of r,g,b,a
@@ -328,10 +337,13 @@ Encoded enc_bmp(const Pic& src8) {
   put_le32(s, 0);
   put_le32(s, 0);
   e.marks.push_back(s.size()); // 54
-  if (hdr >= 108) {
+  if (hdr >= 52) {
     uint32_t masks[4];
     for (int c = 0; c < 4; c++) masks[c] = bitfields ? (0xFFu << (8 * perm[c])) : 0;
-    for (int c = 0; c < 4; c++) put_le32(s, masks[c]);
+    for (int c = 0; c < (hdr >= 56 ? 4 : 3); c++) put_le32(s, masks[c]);
+    e.marks.push_back(s.size());
+  }
+  if (hdr >= 108) {
     put_le32(s, 0x73524742);
     for (int i = 0; i < 9; i++) put_le32(s, 0);
     for (int i = 0; i < 3; i++) put_le32(s, 0);
